@@ -27,9 +27,14 @@ type poolMeta struct {
 	okTrue  map[string]bool // pools that were already allocatable when the obligation started, and have been ever since
 	// allocAtDeletion: the pool was allocatable when it became terminating (its blocks are its own).
 	allocAtDeletion bool
-	// staleTouched: some condition write on (or enabling over) this pool was made by a pass that had missed a change to
-	// an overlapping pool; violations involving it are tagged STALE-PASS (known finding) or, in waive mode, not raised.
-	staleTouched bool
+	// staleNoFail: this pool was disabled by, or had an overlapping pool enabled over it by, a pass that had missed a
+	// decision-relevant change to an overlapping pool and none of whose writes had failed (so nothing told the pass
+	// its cache was stale).  staleAfterFail: the same, but a write of that pass had already failed.
+	staleNoFail    bool
+	staleAfterFail bool
+	// how the write that made this pool allocatable (and it has been ever since) came about
+	enabledStale  bool
+	enabledNoFail bool
 }
 
 func (h *harness) existing(uid string) *v3.IPPool {
@@ -129,6 +134,9 @@ func (h *harness) onAdminDeleteTerminating(p *v3.IPPool) {
 
 func (h *harness) onPoolGone(p *v3.IPPool) {
 	m := h.meta[string(p.UID)]
+	if m.maskObl {
+		h.checkMask(m, p, "as the terminating pool finally goes")
+	}
 	m.gone = true
 	m.maskObl = false
 	m.protects = map[string]bool{}
@@ -176,109 +184,85 @@ func (h *harness) staleFor(inc *incarnation, target *poolMeta) bool {
 	return false
 }
 
-func staleTag(stale bool) string {
-	if stale {
-		return "STALE-PASS: "
-	}
-	return ""
-}
+const staleNoFailTag = "STALE-PASS(no write failed): "
 
-// afterConditionWrite runs after every status write of the controller that the API server accepted.
+// afterConditionWrite runs after every status write of the controller that the API server accepted.  It only keeps
+// the books; the displaced and keeps-masking clauses are judged on persistent effects (at quiescence, and for
+// masking also at the moment the terminating pool finally goes), since the property speaks of the state after the
+// controller has reconciled and a double allocation that the next pass repairs is not a violation.
 func (h *harness) afterConditionWrite(inc *incarnation, p *v3.IPPool, wasTrue bool) {
 	r := h.r
 	me := h.meta[string(p.UID)]
 	nowTrue := isTrue(p)
 	ms := h.sortedMeta()
 	stale := h.staleFor(inc, me)
+	noFail := !inc.passFailed
+	mark := func(m *poolMeta) {
+		if noFail {
+			m.staleNoFail = true
+		} else {
+			m.staleAfterFail = true
+		}
+	}
 	if stale && nowTrue != wasTrue {
 		r.Probe("stale_pass_wrote_condition")
-		me.staleTouched = true
-		r.Logf("  oracle: this pass listed the pool cache at event %d and has missed a later change to a pool overlapping %s", inc.snapPos, me.name)
-		if wasTrue {
-			r.Probe("stale_pass_disabled_allocatable")
-			if h.waiveStale {
-				me.protects = map[string]bool{}
-			}
-		} else {
-			for _, om := range ms {
-				if o := h.existing(om.uid); o != nil && om.uid != me.uid && om.pfx.Overlaps(me.pfx) && isTrue(o) {
-					r.Probe("stale_pass_enabled_over_allocatable")
-					om.staleTouched = true
-					if h.waiveStale {
-						om.protects = map[string]bool{}
-					}
-				}
-			}
-		}
+		r.Logf("  oracle: this pass listed the pool cache at event %d and has missed a later change to a pool overlapping %s (a write of the pass failed before: %v)", inc.snapPos, me.name, !noFail)
 	}
 	if nowTrue && !wasTrue {
-		// "a terminating pool keeps masking overlapping pools until it is gone"
-		r.Eval()
-		for _, tm := range ms {
-			if tm.uid == me.uid || !tm.maskObl || !tm.pfx.Overlaps(me.pfx) {
+		me.enabledStale, me.enabledNoFail = stale, noFail
+		for _, om := range ms {
+			o := h.existing(om.uid)
+			if o == nil || om.uid == me.uid || !om.pfx.Overlaps(me.pfx) {
 				continue
 			}
-			t := h.existing(tm.uid)
-			if t == nil {
-				continue
+			if isTrue(o) {
+				r.Probe("transient_double_allocatable")
+				if stale {
+					r.Probe("stale_pass_enabled_over_allocatable")
+					mark(om)
+				}
 			}
-			if stale && h.waiveStale {
+			if om.maskObl && stale {
 				r.Probe("stale_pass_enabled_pool_over_terminating")
-				tm.okTrue[me.uid] = true
-				continue
 			}
-			r.Violation("terminating_pool_unmasked",
-				"%scontroller made %s allocatable while the overlapping pool %s, which was allocatable when it was deleted, is still terminating (finalizers %v, %d of its blocks left); the pass listed its pool cache %d events after the deletion was recorded",
-				staleTag(stale), poolLine(p), poolLine(t), t.Finalizers, h.ownedBlocks(tm.uid), inc.snapPos-tm.maskAt)
 		}
-		gonePeer := false
 		for _, tm := range h.meta {
 			if tm.gone && tm.allocAtDeletion && tm.pfx.Overlaps(me.pfx) {
-				gonePeer = true
+				r.Probe("masked_pool_enabled_after_terminating_gone")
+				break
 			}
 		}
-		if gonePeer {
-			r.Probe("masked_pool_enabled_after_terminating_gone")
-		}
 	}
-	if !nowTrue {
+	if wasTrue && !nowTrue {
+		me.enabledStale, me.enabledNoFail = false, false
+		if stale {
+			r.Probe("stale_pass_disabled_allocatable")
+			mark(me)
+		}
 		for _, tm := range ms {
 			delete(tm.okTrue, me.uid)
 		}
 	}
 	h.updateContested()
-	// "a pool that was already allocatable is never displaced by a newer overlapping pool"
-	for _, pm := range ms {
-		if len(pm.protects) == 0 {
+}
+
+// checkMask judges "a terminating pool keeps masking overlapping pools until it is gone" for one terminating pool
+// that was allocatable when deleted: when is "at quiescence" or "as the pool finally goes".
+func (h *harness) checkMask(tm *poolMeta, t *v3.IPPool, when string) {
+	for _, xm := range h.sortedMeta() {
+		x := h.existing(xm.uid)
+		if x == nil || xm.uid == tm.uid || !xm.pfx.Overlaps(tm.pfx) {
 			continue
 		}
-		pp := h.existing(pm.uid)
-		if pp == nil {
-			continue
+		tag, note := "", ""
+		if xm.enabledStale && xm.enabledNoFail {
+			tag = staleNoFailTag
+		} else if xm.enabledStale {
+			note = " [it was enabled by a pass that had missed a change to an overlapping pool although a write of that pass had already failed]"
 		}
-		for _, xm := range ms {
-			if !pm.protects[xm.uid] {
-				continue
-			}
-			x := h.existing(xm.uid)
-			if x == nil {
-				continue
-			}
-			r.Check("allocatable_pool_displaced", !(isTrue(x) && !isTrue(pp)),
-				"%s%s was allocatable when the overlapping pool %s was created and the admin has not disabled or deleted it since, yet now the newcomer is allocatable and it is not",
-				staleTag(pm.staleTouched || xm.staleTouched), poolLine(pp), poolLine(x))
-		}
-	}
-	// reach: transient double allocation (only judged at quiescence)
-	if nowTrue {
-		for _, om := range ms {
-			if om.uid != me.uid && om.pfx.Overlaps(me.pfx) {
-				if o := h.existing(om.uid); o != nil && isTrue(o) {
-					r.Probe("transient_double_allocatable")
-					break
-				}
-			}
-		}
+		h.r.Check("terminating_pool_unmasked", !isTrue(x) || tm.okTrue[xm.uid],
+			"%s%s %s is allocatable although it overlaps %s, which was allocatable when the admin deleted it and has been terminating since (%d of its blocks left); it was not allocatable when the deletion happened%s",
+			tag, when, poolLine(x), poolLine(t), h.ownedBlocks(tm.uid), note)
 	}
 }
 
@@ -338,20 +322,27 @@ func (h *harness) finalOracle() {
 				"after the controller converged both %s and %s are allocatable although their CIDRs overlap", poolLine(a), poolLine(b))
 		}
 	}
-	// protected pools are still allocatable
+	// a pool that was allocatable before a newer overlapping pool appeared still is
 	for _, pm := range h.sortedMeta() {
 		p := h.existing(pm.uid)
 		if p == nil {
 			continue
 		}
 		for _, xm := range h.sortedMeta() {
-			if !pm.protects[xm.uid] || h.existing(xm.uid) == nil {
+			x := h.existing(xm.uid)
+			if !pm.protects[xm.uid] || x == nil {
 				continue
 			}
 			r.Probe("protected_pool_checked_at_quiescence")
+			tag, note := "", ""
+			if pm.staleNoFail {
+				tag = staleNoFailTag
+			} else if pm.staleAfterFail {
+				note = " [a pass that had missed a change to an overlapping pool, and had already seen one of its writes fail, disabled it or enabled a pool over it]"
+			}
 			r.Check("allocatable_pool_displaced", isTrue(p),
-				"%s%s was allocatable when the overlapping pool %s was created and the admin has not disabled or deleted it since, yet after convergence it is not allocatable",
-				staleTag(pm.staleTouched || xm.staleTouched), poolLine(p), poolLine(h.existing(xm.uid)))
+				"%safter convergence %s is not allocatable although it was when the overlapping pool %s was created and the admin has not disabled or deleted it since%s",
+				tag, poolLine(p), poolLine(x), note)
 		}
 	}
 	// terminating pools still mask
@@ -364,14 +355,7 @@ func (h *harness) finalOracle() {
 		if h.ownedBlocks(tm.uid) > 0 {
 			r.Probe("terminating_blocked_by_blocks")
 		}
-		for _, xm := range h.sortedMeta() {
-			x := h.existing(xm.uid)
-			if x == nil || xm.uid == tm.uid || !xm.pfx.Overlaps(tm.pfx) {
-				continue
-			}
-			r.Check("terminating_pool_unmasked", !isTrue(x) || tm.okTrue[xm.uid],
-				"%safter convergence %s is allocatable although it overlaps %s, which was allocatable when deleted and is still terminating", staleTag(xm.staleTouched), poolLine(x), poolLine(t))
-		}
+		h.checkMask(tm, t, "after convergence")
 	}
 	// reach only (not part of the property statement): is the allocatable set maximal?
 	maximal := true
